@@ -10,7 +10,9 @@ Stages: proofs (Properties_C17.v) -> correspondence of the Coq model (vm_compute
    (examples phase only) against the loopback API; every planted example must arrive unchanged in some request (or the
    operation must report an error), required inputs must be present and valid, operations without examples are skipped;
    styled parameters (c17_styles.py): every style x explode x type, more body examples than parameter combinations, every request
-   decoded by an independent style decoder.
+   decoded by an independent style decoder;
+   unsendable header examples next to sendable ones (c17_headers.py): Model_C17 section 8 vs find_invalid_headers / add_examples with real
+   header dictionaries, and the per-example rule: received verbatim, or named by the reported error, or every case carrying it is unsendable.
 """
 from __future__ import annotations
 
@@ -1267,13 +1269,14 @@ def check_document(chk, raw, ops, record=True):
 
     evs, reqs = run_engine(raw, phases=[PhaseName.EXAMPLES], workers=1)
     parsed = [parse_request(r) for r in reqs]
-    status, errors = {}, {}
+    status, errors, messages = {}, {}, {}
     for ev in evs:
         name = type(ev).__name__
         if name == "ScenarioFinished":
             status[ev.label] = ev.status
         elif name == "NonFatalError":
             errors.setdefault(ev.label, []).append(type(ev.value).__name__ if hasattr(ev, "value") else "error")
+            messages.setdefault(ev.label, []).append(str(ev.value) if hasattr(ev, "value") else "")
     fails = []
     for op in ops:
         label = f"{op['method']} {op['path']}"
@@ -1288,7 +1291,15 @@ def check_document(chk, raw, ops, record=True):
             if st != Status.SKIP and not errored:
                 fails.append(("operation without examples is not reported as skipped", {"op": label, "status": str(st)}, None))
             continue
-        if errored:
+        if errored and op.get("rr"):
+            # an operation of the unsendable-header generator (no other poison in it), whatever the error reported: only the cases
+            # with an unsendable header may be dropped, every OTHER example must still arrive (c17_headers.py)
+            from harness.props import c17_headers as H
+
+            if record:
+                chk.count("op-reported-invalid-headers")
+            fails += H.per_example_rule(op, label, mine, messages.get(label) or [], str(st))
+        elif errored:
             # reported as an error for that operation (property text); nothing further is demanded
             if record:
                 chk.count("op-reported-error")
@@ -1297,7 +1308,7 @@ def check_document(chk, raw, ops, record=True):
             elif op["region"] == "same_name_examples_lookup":
                 fails.append(("sendable examples not sent: KeyError in the examples lookup", {"op": label}, op["region"]))
             continue
-        for e in op["expect"]:
+        for e in op["expect"] if not errored else []:
             if not example_sent(e, mine):
                 fails.append(("example not sent unchanged", {"op": label, "example": e, "status": str(st), "requests": len(mine)}, e["region"] or op["region"]))
         for r in mine:
@@ -1719,6 +1730,9 @@ def run(chk: core.Check):
         "conversions write into the dict they are given); the style serializer and the fill-in draw are function arguments, instantiated in the "
         "correspondence by finite tables filled from the real serializer / the recorded draws; id() of the container dicts as the observed identity",
         "harness/props/c17_styles.py: generator of styled operations and the independent RFC 6570 / OpenAPI 3.0 style decoder",
+        "harness/props/c17_headers.py: generator of operations with unsendable header examples, the oracle's own notion of a header value that "
+        "every HTTP/1.1 implementation transmits verbatim (RFC 7230 field-content) and its own round-robin pairing of the declared examples; "
+        "Model_C17 section 8 (hand-written model of find_invalid_headers incl. the two regular expressions of requests and of the add_examples loop)",
     ]
     chk.assumptions = [
         "hypothesis-jsonschema returns objects valid for the location schema (keys among the remaining properties, every required name present); "
@@ -1731,6 +1745,9 @@ def run(chk: core.Check):
         "st.none() (all_drawn; add_examples passes no generation_mode); Hypothesis draws each example strategy to completion once (generate_one)",
         "'sent unchanged' for a styled parameter = a server decoding the request per the declared style (RFC 6570 / OpenAPI 3.0 table) obtains the example; "
         "only style/explode/type combinations where serialization.py follows that table are generated (the deviating ones are C06 findings)",
+        "an example whose EVERY case (as paired by the round-robin) carries a header example that cannot be sent counts as reported with that case "
+        "(the error of the operation); every other example must arrive; header values are str after serialize_components; a case dict has unique keys; "
+        "generate_one keeps the combination it is given (function argument mk of C17_example_sent_or_own_case_invalid)",
     ]
     chk.rule = (
         "example lists: 0-13 examples over 1-4 containers x 1-9 names x 1-4 media types with JSON values (no floats), shapes params-only / bodies-only / mixed; "
@@ -1744,7 +1761,14 @@ def run(chk: core.Check):
         "styled operations (case assembly correspondence and styled oracle): 1-7 parameters over path/query/header/cookie with each style x explode x type "
         "combination that follows the OpenAPI 3.0 table (simple, label, matrix, form, spaceDelimited, pipeDelimited, deepObject, content application/json; primitive / array / object), "
         "1-3 examples per parameter, 70% of the operations with an example for EVERY parameter, shapes: more body examples than parameter combinations (half of the documents entirely), "
-        "more parameter combinations than bodies, equal, no body; non-trivial = a parameter combination is cycled over several bodies and a non-idempotent style carries an example"
+        "more parameter combinations than bodies, equal, no body; non-trivial = a parameter combination is cycled over several bodies and a non-idempotent style carries an example; "
+        "header validity: every code point 0-299 + Unicode blanks as first / inner / last character of a value, names with colon / blank / line break, non-str values; "
+        "add_examples with header dictionaries: 0-6 cases, headers None / 1-3 headers, invalid cases none / one (first, middle, last) / two / many / all, values LF, CR, CRLF, "
+        "obs-fold, non-latin-1, leading blank / tab / NBSP / VT / NEL, non-str; non-trivial = a valid case WITH headers after an invalid one; "
+        "unsendable-header documents (OpenAPI 3.0 75% / 2.0): per operation a header with 2-4 examples of which the first / middle / last / two / all but the last / none "
+        "cannot be sent (LF, CR, CRLF, obs-fold, Cyrillic, euro sign, CJK, leading blank or tab; 6% grey values: trailing blank, leading NBSP), 40% a second header with 1-5 examples, "
+        "1-3 of query / path / cookie parameters with 1-5 examples (or a required fill-in), 50% 1-6 body examples, so that the round-robin pairs valid and invalid cases in all ways; "
+        "non-trivial = the operation has a case without unsendable header after a case with one"
     )
     chk.proofs(["Common", "C17"])
     mult = 1 if quick else 8
@@ -1753,7 +1777,12 @@ def run(chk: core.Check):
     stage_lookup(chk, 80 * mult)
     stage_merge(chk, 120 * mult)
     stage_add_examples(chk, 40 * mult)
+    from harness.props import c17_headers as H
+
+    H.stage_header_predicate(chk)
+    H.stage_add_examples_headers(chk, 60 * mult)
     stage_assembly(chk, 40 * mult)
+    H.stage_oracle_headers(chk, (5 if quick else 80) * (10 if chk.broken else 1))
     stage_oracle_styles(chk, (8 if quick else 100) * (10 if chk.broken else 1))
     n_docs = (32 if quick else 400) * (10 if chk.broken else 1)
     stage_oracle(chk, n_docs)
